@@ -9,15 +9,18 @@ META = {
     'files': ['enspara/tpt/core.py', 'enspara/msm/transition_matrices.py'],
     'functions': ['enspara.tpt.core._I_m_Q', 'enspara.tpt.core.committors', 'enspara.tpt.core.mfpts'],
     'bounds': {'quick': 'dense T, n<=4 strictly positive (hence irreducible), every disjoint non-empty source/sink pair of '
-                        'sets of size <=2; n=3 with every irreducible zero pattern; sink-set MFPT n<=4; all-pairs MFPT table n=2',
+                        'sets of size <=2; n=3 with every irreducible zero pattern; sink-set MFPT n<=4; all-pairs MFPT table n=2; '
+                        'column-major and non-contiguous inputs; each of the 7 scipy.sparse containers at n=3 (one and two sinks), '
+                        'n=4 with an intermediate state adjacent to both sinks',
                'thorough': 'n<=5 committors / sink-set MFPT; all-pairs table attempted at n=3 (reported inconclusive if the '
                            'solver gives up)'},
     'stubs': ['scipy.sparse.linalg.spsolve / numpy.linalg.solve on a dense operand = fresh x with A.x = b (A is nonsingular '
-              'for irreducible T with a non-empty absorbing set: not re-proved)', 'numpy.linalg.inv = fresh Z with Z.M = M.Z = I'],
+              'for irreducible T with a non-empty absorbing set: not re-proved)', 'numpy.linalg.inv = fresh Z with Z.M = M.Z = I',
+              'spsolve with a sparse right-hand side: 1 column -> 1-D array, several columns -> csc sparse array (as scipy)', 'scipy.sparse classes = symbolic shadow symnp/sparse.py (result formats, element types, copy/share rules of the operations used; np.matrix results as 2-D arrays; stored pattern of a matrix built from dense = cells that are not the constant zero); validated against the installed scipy by the `sparse-shadow-conformance` job on every run; replays run the real scipy classes'],
     'assumptions': ['exact real arithmetic (QF_NRA)', 'T row-stochastic and irreducible', 'populations passed to mfpts are '
                     'the stationary vector of T', 'linear scaling with the lag time follows from the proved first-step equations '
                     'and uniqueness of their solution'],
-    'outside': ['sparse inputs (tolil path; scipy.sparse containers cannot hold solver terms)', 'numerical conditioning',
+    'outside': ['numerical conditioning',
                 'all-pairs MFPT identity for n>=3 unless the solver finishes'],
 }
 
@@ -60,6 +63,18 @@ def jobs(tier):
             add('committor_job', 'committors[n=%d,%s-layout]' % (n, layout), n=n, sources=[0], sinks=[n - 1], layout=layout)
             add('mfpt_job', 'mfpt[n=%d,sink=0,%s-layout]' % (n, layout), n=n, sinks=[0], layout=layout)
     add('mfpt_job', 'mfpt[n=2,all-pairs,F-layout]', n=2, layout='F')
+    # scipy.sparse containers (symbolic shadow symnp/sparse.py; replays on the real scipy classes)
+    J.append(dict(module='harness.sparse_conf', func='conformance_job', name='sparse-shadow-conformance', kwargs={}, sig_prefix='trusted-base',
+                  deadline_s=dl))
+    for fmt in ('csr', 'csc', 'coo', 'lil', 'dok', 'dia', 'bsr'):
+        add('committor_job', 'committors[n=3,%s,[0]->[2]]' % fmt, n=3, sources=[0], sinks=[2], container=fmt)
+        add('committor_job', 'committors[n=3,%s,[0]->[1,2]]' % fmt, n=3, sources=[0], sinks=[1, 2], container=fmt)
+        add('mfpt_job', 'mfpt[n=3,%s,sink=2]' % fmt, n=3, sinks=[2], container=fmt)
+        # an intermediate state with transitions into BOTH sinks
+        add('committor_job', 'committors[n=4,%s,[0]->[2,3]]' % fmt, n=4, sources=[0], sinks=[2, 3], container=fmt)
+        if fmt in ('csr', 'lil') or not q:
+            add('committor_job', 'committors[n=4,%s,[0,1]->[2,3]]' % fmt, n=4, sources=[0, 1], sinks=[2, 3], container=fmt)
+            add('mfpt_job', 'mfpt[n=2,%s,all-pairs]' % fmt, n=2, container=fmt)
     add('mfpt_job', 'mfpt[n=2,all-pairs]', n=2)
     if not q:
         add('mfpt_job', 'mfpt[n=3,all-pairs]', n=3)
